@@ -401,14 +401,26 @@ func genLatePersist(r *common.Rng) (int, []op, []string) {
 	return 2, ops, ev
 }
 
+// undecodableOp draws an op no replica can decode: origins (K01a), a reference to cid.Undef, no cid (K01b).
+func undecodableOp(r *common.Rng) op {
+	c := r.Intn(cidUniverse)
+	switch r.Intn(4) {
+	case 0: // reference -> cid.Undef: the first shard pin of a sharded add before 9d8b946
+		f := strings.Split(randPin(r, c, 0, false), "/")
+		f[1], f[4], f[5], f[12] = "s", "r", "1", strconv.Itoa(undefIdx)
+		return op{pin: r.Chance(4, 5), tok: strings.Join(f, "/")}
+	case 1: // no cid
+		return op{pin: r.Bool(), tok: randPin(r, undefIdx, 0, false)}
+	}
+	return op{pin: r.Chance(4, 5), tok: randPin(r, c, r.Range(1, 2), false)}
+}
+
 // genOrigins: the LAST op carries origins (known finding K01a): nothing can be applied after it on
 // the same FSM instance without crashing the process.
 func genOrigins(r *common.Rng) (int, []op, []string) {
 	n := r.Range(1, 2)
 	ops := genOps(r, r.Range(0, 10), 0)
-	c := r.Intn(cidUniverse)
-	last := op{pin: r.Chance(4, 5), tok: randPin(r, c, r.Range(1, 2), false)}
-	ops = append(ops, last)
+	ops = append(ops, undecodableOp(r))
 	var ev []string
 	for i := 0; i < n; i++ {
 		for j := 0; j < len(ops)-1; j++ {
